@@ -39,6 +39,24 @@ class ListE:
         return ListE(self.items)
 
 
+class IterE(ListE):
+    """An ITERATOR object: the result of a generator expression, a generator function, iter(), zip(), map(), filter(),
+    enumerate(), reversed(), itertools.*.  The engine computes its items eagerly (A3); this entry keeps what is still
+    to be delivered.  It is not a list (no len / subscripts / == / methods: Unsupported), it is always true, next() takes
+    the first pending item, and a full consumption (list(it), for x in it, sum(it) ...) marks it `consumed`: CPython
+    would deliver nothing on a second pass, the engine refuses one (Unsupported) so that no consumer can silently see
+    the items twice.  `free`: (activation id, {name: value}) of the free variables a stored generator expression reads -
+    CPython evaluates the element expressions only when the generator is consumed, so they must be unchanged then."""
+
+    consumed = False
+    free = None
+
+    def copy(self):
+        c = IterE(self.items)
+        c.consumed, c.free = self.consumed, self.free
+        return c
+
+
 class DictViewE(ListE):
     """d.keys() / d.values() / d.items(): a LIVE view of the dictionary `dref` (which = "keys" | "values" | "items").
     St.get() recomputes `items` from the dictionary's current contents at every access, so a view taken before an
